@@ -11,6 +11,10 @@ from .. import formula as F
 SEP = '<,>'
 STYLES = (',', ';', '\\')
 
+# delivery-channel differential (core.Env): of every 2 evaluations that bind variables, one is repeated with the
+# values handed in by the cell/range listeners and one with the values returned by custom functions; outcomes must agree
+CHANNELS = 2
+
 BOUNDS = {
     'quick': 'digit strings of length 1..3, int.frac with integer part 0..2 and fraction 1..2 digits, n% for n<1000, a^b '
              'for a,b<=12, 20/40/400-digit families; quoted strings of length <=2 over a 20-character alphabet (incl. full-width forms) + all of '
